@@ -195,6 +195,26 @@ fn one(rep: &mut Report, local_ms: i128, base: u64, kind: VoucherKind) {
 const MAX_LOCAL_MS: i128 = 253_402_300_799_999; // 9999-12-31 23:59:59.999
 const MIN_LOCAL_MS: i128 = -377_705_116_800_000; // -9999-01-01 00:00:00
 
+/// Calendar landmarks (ms since the epoch, UTC): the seconds around two leap-second insertions, a
+/// leap day, the non-leap-year 2100, ends of months and years, the 2^31-second rollover.  The window
+/// rule is a pure difference of instants: nothing may depend on where in the calendar it falls.
+pub const CALENDAR_MS: [u64; 14] = [
+    1_483_228_799_000, // 2016-12-31 23:59:59
+    1_483_228_800_000, // 2017-01-01 00:00:00
+    1_435_708_799_000, // 2015-06-30 23:59:59
+    1_435_708_800_000, // 2015-07-01 00:00:00
+    951_782_400_000,   // 2000-02-29 00:00:00
+    1_709_251_199_000, // 2024-02-29 23:59:59
+    4_107_542_399_000, // 2100-02-28 23:59:59
+    4_107_542_400_000, // 2100-03-01 00:00:00
+    2_147_483_647_000, // 2038-01-19 03:14:07
+    1_704_067_200_000, // 2024-01-01 00:00:00
+    1_735_689_599_000, // 2024-12-31 23:59:59
+    1_682_899_199_000, // 2023-04-30 23:59:59
+    86_399_000,        // 1970-01-01 23:59:59
+    31_535_999_000,    // 1970-12-31 23:59:59
+];
+
 pub fn landmark_bases() -> Vec<u64> {
     let mut v: Vec<u64> = Vec::new();
     let around = |v: &mut Vec<u64>, c: u64, r: u64| {
@@ -208,6 +228,7 @@ pub fn landmark_bases() -> Vec<u64> {
     around(&mut v, 62_890, 2);
     v.push(1_000_000_000_000);
     v.push(1_713_027_659_000);
+    v.extend(CALENDAR_MS);
     around(&mut v, MAX_LOCAL_MS as u64, 2);
     v.push(MAX_LOCAL_MS as u64 - 2_990);
     v.push(MAX_LOCAL_MS as u64 + 59_900);
@@ -241,6 +262,12 @@ pub fn special_locals() -> Vec<i128> {
     for c in [i64::MAX as i128 / 1_000_000, u64::MAX as i128 / 1_000_000, 1i128 << 32, 1i128 << 31] {
         for d in -1..=1 {
             v.push(c + d);
+        }
+    }
+    // calendar landmarks: the second itself, its middle and its end, and the start of the next one
+    for c in CALENDAR_MS {
+        for d in [0i128, 500, 999, 1000, 1500] {
+            v.push(c as i128 + d);
         }
     }
     v
